@@ -325,6 +325,14 @@ impl<'a> G<'a> {
         let bits = *r.pick(&[16u64, 32, 64]);
         let range = |r: &mut Rng, bits: u64| -> (u64, u64) {
             let mask = if bits == 64 { u64::MAX } else { (1u64 << bits) - 1 };
+            if r.below(3) == 0 {
+                // choose the *derived* field (range length = max - min + 1) from the scalar mix
+                let len = r.scalar(bits as u32) & mask;
+                if len >= 1 {
+                    let mn = (r.next() & mask) % (mask - (len - 1)).max(1);
+                    return (mn, mn + (len - 1));
+                }
+            }
             let a = r.scalar(bits as u32) & mask;
             let b = r.scalar(bits as u32) & mask;
             let (mn, mx) = if a <= b { (a, b) } else { (b, a) };
@@ -524,6 +532,50 @@ pub fn gen_aml(r: &mut Rng, tier: &str, emit: &mut dyn FnMut(String)) {
             if let Some(ds) = compose(n - 2) {
                 emit(format!("- rt {} {}", ds.len(), ds.join(" ")).trim_end().to_string());
             }
+        }
+    }
+    // marker bytes in every byte lane of every descriptor field, the descriptor alone and as the last
+    // child after another one (code that sniffs emitted bytes for a sentinel such as the end tag)
+    {
+        let lanes = |bits: u64| (bits / 8) as u32;
+        let mut cases: Vec<String> = Vec::new();
+        for b in crate::rng::DICT {
+            let b = b as u64;
+            for l in 0..4 { let v = b << (8 * l);
+                cases.push(format!("mem32 1 {} 4096", v)); cases.push(format!("mem32 1 4096 {}", v)); cases.push(format!("irq 1 0 1 0 {}", v)); }
+            for l in 0..2 { let v = b << (8 * l);
+                cases.push(format!("io {} 2 3 4", v)); cases.push(format!("io 1 {} 3 4", v)); }
+            cases.push(format!("io 1 2 {} 4", b)); cases.push(format!("io 1 2 3 {}", b)); cases.push(format!("io 1 2 {} 0", b));
+            for l in 0..8 { cases.push(format!("reg 0 8 0 1 {}", b << (8 * l))); }
+            if b <= 11 || b == 0x7f { cases.push(format!("reg {} 8 0 1 4096", b)); }
+            cases.push(format!("reg 0 {} 0 1 4096", b)); cases.push(format!("reg 0 8 {} 1 4096", b));
+            for bits in [16u64, 32, 64] {
+                for l in 0..lanes(bits) {
+                    let v = b << (8 * l);
+                    if v >= 1 {
+                        // range length = v, translation = v, minimum = v, maximum = v
+                        cases.push(format!("asmem {} 1 1 4096 {} 0 0", bits, 4096 + (v - 1)).replace("4096 4096 0 0", "4096 4096 0 0"));
+                        cases.push(format!("asio {} 16 {} 0 0", bits, 16 + (v - 1)));
+                        cases.push(format!("asbus {} 0 {}", bits, v - 1));
+                        cases.push(format!("asbus {} {} {}", bits, v, v));
+                    }
+                    cases.push(format!("asmem {} 1 1 16 31 0 {}", bits, v));
+                    cases.push(format!("asio {} 16 31 1 {}", bits, v));
+                }
+            }
+        }
+        let mask_ok = |c: &String| -> bool {
+            // keep arguments inside their width (16-bit ranges must stay below 2^16 …)
+            let t: Vec<&str> = c.split(' ').collect();
+            if t[0].starts_with("as") {
+                let bits: u32 = t[1].parse().unwrap();
+                let lim: u128 = 1u128 << bits;
+                t[2..].iter().all(|x| x.parse::<u128>().map(|v| v < lim).unwrap_or(false))
+            } else { true }
+        };
+        for c in cases.iter().filter(|c| mask_ok(c)) {
+            emit(format!("- rt 1 {}", c));
+            emit(format!("- rt 2 io 1 2 3 4 {}", c));
         }
     }
     // all flag combinations of the descriptors exhaustively
